@@ -635,6 +635,113 @@ def buffer_roots(repo: Repo, fi: FunctionInfo, du: DefUse, e: ast.AST, at: ast.A
     return {f"fresh@{getattr(b, 'lineno', 0)}:{getattr(b, 'col_offset', 0)}"}
 
 
+# ------------------------------------------------------------------------------------------------ scratch buffers re-used across iterations
+FRESH_ALLOC = ("zeros", "empty", "ones", "zeros_like", "empty_like", "ones_like", "full", "full_like", "empty_aligned")
+
+
+def stale_scratch_reads(fi: FunctionInfo):
+    """Work arrays allocated once before a loop and re-used by every iteration: an iteration that overwrites only PART of the buffer
+    (`out=B[:k]`, `B[:k] = ..` with k depending on the iteration) and then reads MORE of it (the whole `B`, or another range) sees what an
+    earlier iteration left in the rows it did not write.  -> [(loop, buffer name, write node, written range text, read node, read range text)]."""
+    from .struct import kwarg
+    out = []
+    du = DefUse(fi.node)
+    cfg = du.cfg
+    for loop in [n for n in walk_function(fi.node) if isinstance(n, (ast.For, ast.While))]:
+        body_nodes = [x for b in loop.body for x in ast.walk(b)]
+        body_ids = {id(x) for x in body_nodes}
+        names = {n.id for n in body_nodes if isinstance(n, ast.Name)}
+        for B in sorted(names):
+            defs = [d for d in du.defs if d.var == B and d.kind == "assign"]
+            if len(defs) != 1 or id(defs[0].stmt) in body_ids or not (isinstance(defs[0].value, ast.Call) and call_name(defs[0].value) in FRESH_ALLOC):
+                continue
+            if any(d.var == B and d.kind in ("assign", "for", "unpack", "with") and d.stmt is not None and id(d.stmt) in body_ids for d in du.defs):
+                continue
+            alloc = defs[0].value
+            dim0 = None
+            if alloc.args:
+                shp = alloc.args[0]
+                dim0 = shp.elts[0] if isinstance(shp, (ast.Tuple, ast.List)) and shp.elts else shp
+            # accesses in source order within the loop body (top-level statements and their sub-expressions)
+            events = []   # (order, kind, node, region ast or None)
+            order = 0
+
+            def region_of(sub):
+                sl = sub.slice.elts[0] if isinstance(sub.slice, ast.Tuple) and sub.slice.elts else sub.slice
+                if isinstance(sl, ast.Slice) and sl.lower is None and sl.upper is None and sl.step is None:
+                    return None
+                if isinstance(sl, ast.Constant) and sl.value is Ellipsis:
+                    return None
+                return sl
+            for st in loop.body:
+                writes_here = set()
+                for n in ast.walk(st):
+                    order += 1
+                    if isinstance(n, ast.Call):
+                        o = kwarg(n, "out")
+                        if o is not None:
+                            root = o
+                            while isinstance(root, ast.Subscript):
+                                root = root.value
+                            if loc_name(root) == B:
+                                events.append((order, "write", n, region_of(o) if isinstance(o, ast.Subscript) else None))
+                                for x in ast.walk(o):
+                                    writes_here.add(id(x))
+                    if isinstance(n, ast.Assign):
+                        for t in n.targets:
+                            root = t
+                            while isinstance(root, ast.Subscript):
+                                root = root.value
+                            if loc_name(root) == B and isinstance(t, ast.Subscript):
+                                events.append((order, "write", n, region_of(t)))
+                                for x in ast.walk(t):
+                                    writes_here.add(id(x))
+                    if isinstance(n, ast.AugAssign):
+                        root = n.target
+                        while isinstance(root, ast.Subscript):
+                            root = root.value
+                        if loc_name(root) == B:
+                            events.append((order, "accumulate", n, None))
+                            for x in ast.walk(n.target):
+                                writes_here.add(id(x))
+                # reads: Name loads of B not inside a write target of this statement
+                parents = {}
+                for p_ in ast.walk(st):
+                    for c_ in ast.iter_child_nodes(p_):
+                        parents[id(c_)] = p_
+                for n in ast.walk(st):
+                    if isinstance(n, ast.Name) and n.id == B and isinstance(n.ctx, ast.Load) and id(n) not in writes_here:
+                        par = parents.get(id(n))
+                        reg, node = None, n
+                        if isinstance(par, ast.Subscript) and par.value is n:
+                            reg, node = region_of(par), par
+                        if isinstance(par, ast.Attribute) and par.attr in ("shape", "size", "dtype", "ndim", "nbytes"):
+                            continue
+                        events.append((order + 0.5, "read", node, reg))
+            if any(k == "accumulate" for _, k, _, _ in events) and not any(k == "write" for _, k, _, _ in events):
+                continue
+            events.sort(key=lambda t: t[0])
+            partial = None
+            for o_, kind, node, reg in events:
+                if kind == "write":
+                    if reg is None:
+                        partial = None
+                        break   # the whole buffer is rewritten by every iteration
+                    same_as_alloc = False
+                    if isinstance(reg, ast.Slice) and reg.step is None and (reg.lower is None or const_value(reg.lower) == (True, 0)) and reg.upper is not None and dim0 is not None:
+                        same_as_alloc = norm(reg.upper) == norm(dim0)
+                    elif isinstance(reg, ast.Call) and call_name(reg) == "slice" and dim0 is not None:
+                        up = reg.args[1] if len(reg.args) >= 2 else (reg.args[0] if reg.args else None)
+                        same_as_alloc = up is not None and norm(up) == norm(dim0) and (len(reg.args) < 2 or const_value(reg.args[0]) in ((True, 0), (True, None)))
+                    partial = None if same_as_alloc else (node, reg)
+                elif kind == "read" and partial is not None:
+                    wnode, wreg = partial
+                    if reg is None or norm(reg) != norm(wreg):
+                        out.append((loop, B, wnode, src(wreg), node, src(reg) if reg is not None else "the whole buffer"))
+                        break
+    return out
+
+
 # ------------------------------------------------------------------------------------------------ finite label domain
 def _is_label_vector(du: DefUse, e: ast.AST, at: ast.AST, labels: Sequence[str], depth: int = 0) -> bool:
     if depth > 5 or e is None:
